@@ -104,10 +104,11 @@ def handleMetadata (op : String) (j : Json) : R Json := do
     -- `Metadata(d)`: does the constructor accept the dict `d` (keys of any kind)?
     pure (Json.bool (validateArgs (← jList (jPair jMd jMd) (← j.getObjVal? "args"))))
   | "md.enc" =>
-    let a ← mdJAux (← j.getObjVal? "aux")
+    -- "aux" holds the constructor ARGUMENTS; the constructed object is `normAux` of them (`__post_init__`)
+    let a := normAux (← mdJAux (← j.getObjVal? "aux"))
     let i := itemAux mdNsLeaf a
     pure (Json.mkObj [("hex", ofBytes (encode i)), ("inscope", Json.bool (auxOkB a)), ("specok", Json.bool (auxSpecOkB a)),
-      ("conforms", Json.bool (Spec.Metadata.auxiliary_data mdNsRule i)), ("canon", mdOfAux (canonAux a)),
+      ("conforms", Json.bool (Spec.Metadata.auxiliary_data mdNsRule i)), ("canon", mdOfAux (canonAux a)), ("constructed", mdOfAux a),
       ("hash_len", ofNat (auxHashId mdNsLeaf a).len), ("hash_pre", ofBytes (auxHashId mdNsLeaf a).pre),
       ("valid", match mdMetadataOf a with | some m => Json.bool (validate m) | none => Json.null)])
   | "md.dec" =>
